@@ -45,7 +45,9 @@ def run_pool(repo,keys,timeout_ms,seed,nsample,known,procs=16,reg=None):
       jobs.append((repo,k,timeout_ms,seed,nsample,known,'<none>'))       # sampling only
       for vl in vls: jobs.append((repo,k,timeout_ms,seed,0,known,vl))
   if not jobs: return []
-  with Pool(min(procs,len(jobs))) as p: res=p.map(driver.run_contract,jobs,chunksize=1)
+  # one fresh process per job: the z3 context (AST numbering, parameters) a job sees does not depend on which jobs the pool happened to give
+  # the same worker before, so a verdict cannot flip with the scheduling of the pool
+  with Pool(min(procs,len(jobs)),maxtasksperchild=1) as p: res=p.map(driver.run_contract,jobs,chunksize=1)
   merged={}
   for r in res:
     m=merged.get(r['key'])
